@@ -1,4 +1,4 @@
-use std::{collections::BTreeMap, path::Path, sync::Arc};
+use std::{path::Path, sync::Arc};
 
 use codemap::{Span, Spanned};
 
@@ -200,7 +200,7 @@ impl<'a> CssParser<'a> {
                 name: identifier,
                 arguments: ArgumentInvocation {
                     positional: arguments,
-                    named: BTreeMap::new(),
+                    named: Default::default(),
                     rest: None,
                     keyword_rest: None,
                     span: self.toks.span_from(before_args),
